@@ -112,6 +112,7 @@ for name, commit, expect in [
     ('r-d4-readfull', 'fc6547d', ['C07','C08','C06']),
     ('r-d10-wellformed-alias', '9e0c275', ['C17']),
     ('r-d9-undefined-alias', 'bc73822', ['C14']),
+    ('r-d12-buffer-past-end', '2c526bb', ['C04']),
 ]:
     mut(name, expect, 'revert of fix commit %s' % commit, revert=commit)
 
